@@ -13,7 +13,7 @@ def main():
     if not os.path.isdir(WT):
         rc, out = sh("git -C /repo worktree add -q --detach %s HEAD" % WT, cwd="/")
         assert rc == 0, out
-    sh("git checkout -q --detach $(git -C /repo rev-parse HEAD) && git reset -q --hard HEAD && rm -f tests/demo_*.rs")
+    sh("git reset -q --hard HEAD; git checkout -q --detach $(git -C /repo rev-parse HEAD) && git reset -q --hard HEAD; rm -f tests/demo_*.rs")
     res = {"mutant": d}
     rc, out = sh("git apply --3way %s/patch.diff || git apply %s/patch.diff" % (d, d))
     res["applies"] = rc == 0
